@@ -27,6 +27,12 @@ impl<T> IndexSet<T> {
                 r.0 < u32::MAX - 1,
     { unimplemented!() }
 
+    /// `IndexSet::default()`: the empty table
+    #[verifier::external_body]
+    pub fn default() -> (r: Self)
+        ensures r@ == Seq::<T>::empty(),
+    { unimplemented!() }
+
     /// RESOURCE ASSUMPTION: fewer than 2^32 - 1 elements are ever stored
     pub broadcast proof fn ax_table_bound(&self)
         ensures #[trigger] self@.len() < u32::MAX,
@@ -56,6 +62,12 @@ impl ValueInterner {
     pub open spec fn extends(&self, old: &ValueInterner) -> bool {
         forall|i: BitVecValueIndex| #[trigger] old.interned(i) ==> self.interned(i) && self.val(i) == old.val(i)
     }
+
+    /// `baa::ValueInterner::default()` (it pre-interns the numbers 0..7 at the indices 0..7, which is part of `inv`)
+    #[verifier::external_body]
+    pub fn default() -> (r: Self)
+        ensures r.inv(),
+    { unimplemented!() }
 
     #[verifier::external_body]
     pub fn get_index(&mut self, value: &BitVecValue) -> (r: BitVecValueIndex)
